@@ -24,7 +24,18 @@ T2: (a) `_revision_relations` / `_check_if_descendant_or_diverged` on every
     bound target (master in or out of step, master append-only); compared with
     the model on: exception class, persisted (tip, revno) of target and master;
     (d) git: random merge DAGs committed through git working trees, real
-    pull/push between local git branches, compared with `updateTipGit`.
+    pull/push between local git branches, compared with `updateTipGit`;
+    (e) pull(local=True) (bound and unbound targets) and pulls from the
+    target's own master (source_is_master), compared with `pullOpX`;
+    (f) the target opened through bzr:// (RemoteBranch; an in-process
+    SmartTCPServer over the memory transport): push goes through the
+    Branch.set_last_revision_info verb, pull through the VFS branch; compared
+    with the same model modulo the error class of an append-only refusal
+    (RevisionNotPresent for null: through the client-side graph);
+    (g) sequences of 2..4 pulls/pushes over 3..4 persistent branches (own
+    repositories holding the whole DAG, some append-only, the target bound to a
+    third branch for some ops): the persisted (tip, revno) of ALL branches
+    after EVERY op is compared with the model's `step`/`run` (driver `seq`).
 Oracle (independent of the Lean model, on a Python reference of the DAG):
     without overwrite the old tip is an ancestor of (or equal to) the new tip,
     for the target and for its master; on any exception the target tip is
@@ -32,7 +43,13 @@ Oracle (independent of the Lean model, on a Python reference of the DAG):
     => unchanged and no error, neither => DivergedBranches; with overwrite the
     tip is the requested revision; the recorded revno equals the length of the
     left-hand history; with append-only no accepted tip lacks the old tip in
-    its left-hand history.
+    its left-hand history; a failed bound operation: diverged from the master
+    => DivergedBranches and the master unchanged, master moved/contained => the
+    error is justified by the target; local=True never moves the master and
+    needs a bound target; pulling from the master never moves it; in sequences
+    additionally: branches that are neither target nor master never change, and
+    the run-level statements (original tip is an ancestor of the final tip when
+    nothing overwrote; append-only: on its left-hand history; final revnos).
 
 Mutation self-test (scratch worktree, quick tier, seed 0; all caught):
  M1  _revision_relations: 'b_descends_from_a' / 'a_descends_from_b' swapped     -> oracle (+T1, T2)
@@ -53,6 +70,13 @@ Mutation self-test (scratch worktree, quick tier, seed 0; all caught):
  M12 git generate_revision_history without the divergence check                 -> oracle (git)
  H1  harmless: elif chain of _check_if_descendant_or_diverged reordered,
      last_revision() -> last_revision_info()[1]                                 -> clean, T1 still proved
+Improvement round (streams e-g):
+ M13 pull: `not local` dropped from the master-pull condition                   -> oracle "pull(local=True) moved the master"
+ M14 pull: LocalRequiresBoundBranch test removed                                -> oracle (local=True, unbound)
+ M15 RemoteBranch.set_last_revision_info sends old_revno + 1                    -> oracle (revno, bzr:// stream only)
+ M16 push: target pushed before the master of a bound target                    -> oracle "raised but the target tip changed" (+ sequences)
+ H2  harmless: `if master_branch:` -> `if master_branch is not None:`           -> clean
+ stored seeds C21-bound-push-updates-local-before-master, C21-push-overwrite-set-truthiness -> oracle, seeds 0..3
 """
 import ast
 import itertools
@@ -68,12 +92,17 @@ THEOREMS = [
     "overwrite_sets", "update_error_unchanged", "no_overwrite_never_drops",
     "revno_is_lefthand_length", "append_only", "push_pull_never_drop",
     "run_revno_invariant", "run_never_drops", "git_agrees_with_bzr",
+    "update_descends_append_only", "overwrite_sets_append_only", "run_append_only", "op_append_only",
+    "bound_eq_update", "bound_master_diverged", "bound_both_contained", "bound_both_descend",
+    "bound_master_moves_target_diverged", "bound_in_step_stays", "pull_local_or_from_master",
 ]
 T1_EQUALITY_THEOREMS = ["revision_relations_gen_eq", "check_relation_gen_eq"]
 RULE = ("scenario = random revision DAG (3..N revisions, merges, extra roots, ghost parents, left-hand ghosts) "
         "committed with BranchBuilder (2a) or git working trees; cases = all (target tip, stop) pairs and all "
         "(source tip, target tip) pairs with stop=None, each with random pull/push, overwrite in "
-        "{False,True,{tags},{history}}, append-only, bound master; plus every heads() answer for "
+        "{False,True,{tags},{history}}, append-only, bound master, local=True, source = master; for the first DAGs "
+        "also random cases with the target opened through bzr://; per DAG 3..5 sequences of 2..4 ops over 3..4 "
+        "persistent branches (non-trivial = at least two ops moved a tip); plus every heads() answer for "
         "_revision_relations; non-trivial = the target tip and the requested revision are both non-null and "
         "differ; distinct by (graph, case)")
 ASSUMPTIONS = [
@@ -82,7 +111,9 @@ ASSUMPTIONS = [
     "recorded revnos of the initial branches equal the length of their left-hand history (hypothesis of the revno invariant); tips with a ghost in their left-hand history are an excluded-input stream compared with the model but not with the revno oracle",
 ]
 TRUSTED = [
-    "tag merging, reference updates, hooks, locking and the smart-server (RemoteBranch) path are not modelled; fetch is modelled as 'the stop revision must be present'",
+    "tag merging, reference updates, hooks and locking are not modelled; fetch is modelled as 'the stop revision must be present'",
+    "the smart-server path (RemoteBranch target) is not modelled separately: it is compared with the model of the local code, modulo the error class of an append-only refusal",
+    "a master that is itself bound (pull recurses into the master's master) is not modelled",
 ]
 
 NULL = b"null:"
@@ -292,11 +323,24 @@ ERRS = {
     "DivergedBranches": "E:Diverged", "NoSuchRevision": "E:NoSuchRevision",
     "GhostRevisionsHaveNoRevno": "E:GhostRevno", "AppendRevisionsOnlyViolation": "E:AppendOnly",
     "RevisionNotPresent": "E:NotPresent", "AssertionError": "E:Assertion",
+    "LocalRequiresBoundBranch": "E:LocalRequiresBound",
 }
+# connection-level failures of the in-process smart server are infrastructure problems, never outcomes
+INFRA_ERRS = ("ConnectionError", "ConnectionReset", "ConnectionTimeout", "TooManyConcurrentRequests",
+              "SmartProtocolError", "SmartMessageHandlerError", "timeout", "TimeoutError",
+              "ConnectionRefusedError", "ConnectionResetError", "BrokenPipeError", "LockContention", "LockFailed")
 
 
 def err_s(e):
-    return ERRS.get(type(e).__name__, "E:other:" + type(e).__name__)
+    name = type(e).__name__
+    if name == "UnknownErrorFromSmartServer":
+        # an exception of the server side that has no wire translation: (b"error", <class name>, <message>)
+        tup = getattr(e, "error_tuple", ()) or ()
+        inner = tup[1].decode("ascii", "replace") if len(tup) > 1 and isinstance(tup[1], bytes) else "?"
+        return ERRS.get(inner, "E:other:server:" + inner)
+    if name in INFRA_ERRS:
+        raise env.InfraError("smart-server / locking problem while running a case: %s: %s" % (name, e))
+    return ERRS.get(name, "E:other:" + name)
 
 
 # ---------------------------------------------------------------------------
@@ -305,13 +349,16 @@ def err_s(e):
 class Universe:
     """all revisions of a DAG committed into one 2a branch on a memory server"""
 
-    def new_branch(self, tip, revno):
+    def new_branch(self, tip, revno, whole=False):
         from breezy.controldir import ControlDir, format_registry
         self.n += 1
         br = ControlDir.create_branch_convenience(
             self.base + "b%d" % self.n, format=format_registry.make_controldir("2a"), force_new_tree=False)
-        if tip is not None:
+        if whole:
+            br.repository.fetch(self.U.repository)
+        elif tip is not None:
             br.repository.fetch(self.U.repository, revision_id=rid(tip))
+        if tip is not None:
             br.set_last_revision_info(revno, rid(tip))
         return br
 
@@ -377,7 +424,16 @@ def gen_cases(rng, dag, pairs_only=False):
             r = rng.random()
             mt = tgt if r < 0.4 else rng.choice(tips)
             master = [mt, rng.random() < 0.25]
-        return dict(kind=kind, src=src, tgt=tgt, stop=stop, ow=ow, ao=ao, master=master)
+        lo = sm = False
+        if kind == "pull":
+            r = rng.random()
+            if r < 0.10:
+                lo = True                 # pull(local=True): bound (mostly) or not
+                if master is None and rng.random() < 0.7:
+                    master = [tgt if rng.random() < 0.4 else rng.choice(tips), rng.random() < 0.25]
+            elif r < 0.18:
+                sm, master = True, None   # the target is bound to the SOURCE: pull from the master itself
+        return dict(kind=kind, src=src, tgt=tgt, stop=stop, ow=ow, ao=ao, master=master, lo=lo, sm=sm)
     for tgt in tips:
         for stop in tips + ghosts[:2]:
             cases.append(opts(rng.choice(tips), tgt, "~" if stop is None else stop))
@@ -399,6 +455,12 @@ def case_line(dag, revno, c):
         return "%s/%d/%s" % (tip_s(t), revno(t), "T" if ao else "F")
     m = "-" if c["master"] is None else br(c["master"][0], c["master"][1])
     stop = c["stop"] if c["stop"] in ("N", "~") else str(c["stop"])
+    if c.get("lo") or c.get("sm"):
+        if c.get("sm"):
+            m = br(c["src"], False)
+        return "bzrx %s %s %s %s %s %s %s %s" % (
+            enc_graph(dag), br(c["src"], False), br(c["tgt"], c["ao"]), m, stop,
+            "T" if ow_history(c["ow"]) else "F", "T" if c.get("lo") else "F", "T" if c.get("sm") else "F")
     return "bzr %s %s %s %s %s %s %s" % (
         c["kind"], enc_graph(dag), br(c["src"], False), br(c["tgt"], c["ao"]), m, stop,
         "T" if ow_history(c["ow"]) else "F")
@@ -412,6 +474,7 @@ class BzrRunner:
         self.dag = dag
         self.u = build_universe(dag)
         self.pool = {}
+        self.smart = None
 
     def revno(self, t):
         return recorded_revno(self.dag, t)
@@ -433,6 +496,20 @@ class BzrRunner:
         if ao:
             br.set_append_revisions_only(True)
 
+    def remote(self, br):
+        """the same branch opened through an in-process smart server (bzr://) that serves the memory transport"""
+        from breezy.branch import Branch
+        if self.smart is None:
+            from breezy.transport import get_transport
+            from breezy.bzr.smart import server as S
+            self.smart = S.SmartTCPServer(get_transport(self.u.base), client_timeout=120)
+            self.smart.start_server("127.0.0.1", 0)
+            self.smart.start_background_thread("-c21")
+        rb = Branch.open(self.smart.get_url() + br.base[len(self.u.base):])
+        if type(rb).__name__ != "RemoteBranch":
+            raise env.InfraError("bzr:// did not give a RemoteBranch but %s" % type(rb).__name__)
+        return rb
+
     def run_case(self, c):
         """-> (canonical output string, observation dict)"""
         from breezy.branch import Branch
@@ -445,27 +522,69 @@ class BzrRunner:
             M = self.branch("m", c["master"][0])
             self.reset(M, c["master"][0], c["master"][1])
             T.bind(M)
+        elif c.get("sm"):
+            T.bind(U)
         stop = None if c["stop"] == "N" else (NULL if c["stop"] == "~" else rid(c["stop"]))
         err = "ok"
+        TT = self.remote(T) if c.get("remote") else T
+        kw = dict(local=True) if c.get("lo") else {}
         try:
             if c["kind"] == "pull":
-                T.pull(U, overwrite=OW[c["ow"]], stop_revision=stop)
+                TT.pull(U, overwrite=OW[c["ow"]], stop_revision=stop, **kw)
             else:
-                U.push(T, overwrite=OW[c["ow"]], stop_revision=stop)
+                U.push(TT, overwrite=OW[c["ow"]], stop_revision=stop)
         except Exception as e:
             err = err_s(e)
         # what was persisted
         tr, tt = Branch.open(T.base).last_revision_info()
         obs = dict(err=err, tgt=[unrid(tt), tr], master=None)
         out = "%s %s/%d" % (err, tip_s(unrid(tt)), tr)
-        if M is not None:
-            mr, mt = Branch.open(M.base).last_revision_info()
+        if M is not None or c.get("sm"):
+            mr, mt = Branch.open((M or U).base).last_revision_info()
             obs["master"] = [unrid(mt), mr]
             out += " %s/%d" % (tip_s(unrid(mt)), mr)
             T.set_bound_location(None)
         else:
             out += " -"
         return out, obs
+
+    def run_seq(self, q):
+        """a sequence of pulls / pushes among persistent branches (each with its own repository that
+        holds the whole DAG) -> (state of all branches after every op, [(pseudo case, observation)])"""
+        from breezy.branch import Branch
+        brs = [self.u.new_branch(t, self.revno(t), whole=True) for t, ao in q["brs"]]
+        for b, (t, ao) in zip(brs, q["brs"]):
+            if ao:
+                b.set_append_revisions_only(True)
+
+        def state():
+            out = []
+            for b in brs:
+                rn, t = Branch.open(b.base).last_revision_info()
+                out.append([unrid(t), rn])
+            return out
+        cur = state()
+        trace, steps = [], []
+        for op in q["ops"]:
+            S, T = Branch.open(brs[op["si"]].base), Branch.open(brs[op["ti"]].base)
+            if op["mi"] is not None:
+                T.bind(brs[op["mi"]])
+            stop = None if op["stop"] == "N" else (NULL if op["stop"] == "~" else rid(op["stop"]))
+            err = "ok"
+            try:
+                if op["kind"] == "pull":
+                    T.pull(S, overwrite=OW[op["ow"]], stop_revision=stop)
+                else:
+                    S.push(T, overwrite=OW[op["ow"]], stop_revision=stop)
+            except Exception as e:
+                err = err_s(e)
+            if op["mi"] is not None:
+                Branch.open(brs[op["ti"]].base).set_bound_location(None)
+            new = state()
+            steps.append(dict(err=err, before=cur, after=new))
+            trace.append(",".join("%s/%d" % (tip_s(t), rn) for t, rn in new))
+            cur = new
+        return ";".join(trace), steps
 
     def graph_obs(self, a, b):
         """what vcsgraph / Branch answer about the pair (a, b) on the real repository"""
@@ -496,6 +615,11 @@ class BzrRunner:
                 ",".join(tip_s(h) for h in hs) or "-", rel, lh_s, rn, present)
 
     def close(self):
+        if self.smart is not None:
+            try:
+                self.smart.stop_background_thread()
+            except Exception:
+                pass
         self.u.srv.stop_server()
 
 
@@ -507,9 +631,19 @@ def oracle(dag, c, obs, revno, sink):
     eff = c["src"] if c["stop"] == "N" else (None if c["stop"] == "~" else c["stop"])
     noop = c["stop"] == "N" and c["src"] is None          # nothing to pull
     err = obs["err"]
+    lo, sm = bool(c.get("lo")), bool(c.get("sm"))
     checks = [("target", old_t, new_t, new_rn, c["ao"])]
     if c["master"] is not None and obs["master"] is not None:
         checks.append(("master", c["master"][0], obs["master"][0], obs["master"][1], c["master"][1]))
+        if lo and obs["master"][0] != c["master"][0]:
+            sink("pull(local=True) moved the master %s -> %s" % (tip_s(c["master"][0]), tip_s(obs["master"][0])), None)
+    if sm and obs["master"] is not None and obs["master"][0] != c["src"]:
+        sink("pull from the master moved the master (= source) %s -> %s" % (tip_s(c["src"]), tip_s(obs["master"][0])), None)
+    if lo and c["master"] is None and not sm:
+        # local=True needs a bound branch
+        if err != "E:LocalRequiresBound" or new_t != old_t:
+            sink("pull(local=True) into an unbound branch: %s, tip %s -> %s" % (err, tip_s(old_t), tip_s(new_t)), None)
+        return
     for who, old, new, rn, ao in checks:
         if not hist and not ref_is_anc(dag, old, new):
             sink("%s tip moved from %s to %s which does not contain it (no overwrite)" % (who, tip_s(old), tip_s(new)), None)
@@ -527,13 +661,27 @@ def oracle(dag, c, obs, revno, sink):
     if noop or (eff is not None and eff >= GH0):
         return
     lh_eff = ref_lh(dag, eff)
-    if c["master"] is None:
+    if c["master"] is None or lo:
+        # no master, or a master that is left alone (local=True; source is the master): the target alone decides
         _classify(dag, "target", old_t, new_t, eff, err, hist, lh_eff, c["ao"], sink)
     elif err == "ok" and obs["master"] is not None:
         # a bound operation that succeeded has updated the master and then the target: each of
         # them must look like a successful stand-alone operation
         _classify(dag, "target", old_t, new_t, eff, "ok", hist, lh_eff, c["ao"], sink)
         _classify(dag, "master", c["master"][0], obs["master"][0], eff, "ok", hist, lh_eff, c["master"][1], sink)
+    elif obs["master"] is not None:
+        # the bound operation failed: the master decides first, and when it refuses nothing has changed;
+        # when the master accepted (moved or contained) the error is the target's
+        m_old, m_new = c["master"][0], obs["master"][0]
+        if not hist and not ref_is_anc(dag, eff, m_old) and not ref_is_anc(dag, m_old, eff):
+            if err != "E:Diverged" or m_new != m_old:
+                sink("%s and master tip %s diverged but outcome is %s, master tip %s" % (
+                    tip_s(eff), tip_s(m_old), err, tip_s(m_new)), None)
+        elif m_new != m_old or (not hist and ref_is_anc(dag, eff, m_old)):
+            # the master has moved or already contained the revision, so it accepted: then the refusal
+            # must be justified by the TARGET
+            _classify(dag, "master", m_old, m_new, eff, "ok", hist, lh_eff, c["master"][1], sink)
+            _classify(dag, "target", old_t, new_t, eff, err, hist, lh_eff, c["ao"], sink)
 
 
 def _classify(dag, who, old_t, new_t, eff, err, hist, lh_eff, ao, sink):
@@ -568,18 +716,100 @@ def _nontrivial(c):
     return c["tgt"] is not None and eff is not None and eff != c["tgt"]
 
 
+def gen_remote_cases(rng, dag, k):
+    """pull into / push to the target opened through bzr:// (RemoteBranch): unbound targets, all overwrite
+    values, append-only; the (target tip, requested revision) pairs are drawn from all pairs"""
+    tips = [None] + dag["order"]
+    out = []
+    for _ in range(k):
+        tgt, src = rng.choice(tips), rng.choice(tips)
+        stop = rng.choice(["N", "N", "~"] + dag["order"] + dag["order"])
+        out.append(dict(kind=rng.choice(["pull", "push"]), src=src, tgt=tgt, stop=stop,
+                        ow=rng.choice(["F", "F", "F", "T", "tags", "history"]), ao=rng.random() < 0.3,
+                        master=None, lo=False, sm=False, remote=True))
+    return out
+
+
+def gen_seqs(rng, dag, k):
+    """sequences of 2..4 pulls / pushes over 3..4 persistent branches (tips with a ghost-free left-hand
+    history; some append-only; the target bound to a third branch for some ops)"""
+    good = [None] + [r for r in dag["order"] if ref_lh(dag, r) is not None]
+    ghosts = sorted({p for ps in dag["parents"].values() for p in ps if p >= GH0})
+    seqs = []
+    for _ in range(k):
+        nb = rng.randint(3, 4)
+        brs = [[rng.choice(good), rng.random() < 0.3] for _ in range(nb)]
+        ops = []
+        for _ in range(rng.randint(2, 4)):
+            si, ti = rng.sample(range(nb), 2)
+            mi = None
+            if rng.random() < 0.35:
+                mi = rng.choice([i for i in range(nb) if i not in (si, ti)])
+            stop = "N" if rng.random() < 0.6 else rng.choice(["~"] + dag["order"] + ghosts[:1])
+            ops.append(dict(kind=rng.choice(["pull", "push"]), si=si, ti=ti, mi=mi, stop=stop,
+                            ow=rng.choice(["F", "F", "F", "T", "tags", "history"])))
+        seqs.append(dict(brs=brs, ops=ops))
+    return seqs
+
+
+def seq_line(dag, q):
+    brs = ",".join("%s/%d/%s" % (tip_s(t), recorded_revno(dag, t), "T" if ao else "F") for t, ao in q["brs"])
+    ops = ",".join("%s:%d:%d:%s:%s:%s" % (
+        o["kind"], o["si"], o["ti"], "-" if o["mi"] is None else str(o["mi"]),
+        o["stop"] if o["stop"] in ("N", "~") else str(o["stop"]), "T" if ow_history(o["ow"]) else "F") for o in q["ops"])
+    return "seq %s %s %s" % (enc_graph(dag), brs, ops)
+
+
+def seq_oracle(dag, q, steps, sink):
+    """the statement, step by step, on the persisted states of ALL branches of a sequence"""
+    n = len(q["brs"])
+    for k, (op, st) in enumerate(zip(q["ops"], steps)):
+        tag = "op %d (%s %d->%d%s stop=%s ow=%s): " % (k, op["kind"], op["si"], op["ti"],
+                                                       "" if op["mi"] is None else " master %d" % op["mi"], op["stop"], op["ow"])
+        for i in range(n):
+            if i not in (op["ti"], op["mi"]) and st["after"][i] != st["before"][i]:
+                sink(tag + "branch %d is neither target nor master but changed %r -> %r" % (i, st["before"][i], st["after"][i]), None)
+        c = dict(kind=op["kind"], src=st["before"][op["si"]][0], tgt=st["before"][op["ti"]][0], stop=op["stop"], ow=op["ow"],
+                 ao=q["brs"][op["ti"]][1], lo=False, sm=False,
+                 master=None if op["mi"] is None else [st["before"][op["mi"]][0], q["brs"][op["mi"]][1]])
+        obs = dict(err=st["err"], tgt=st["after"][op["ti"]], master=None if op["mi"] is None else st["after"][op["mi"]])
+        oracle(dag, c, obs, None, lambda what, fam: sink(tag + what, fam))
+    # the whole run
+    if steps:
+        first, last = steps[0]["before"], steps[-1]["after"]
+        for i in range(n):
+            if all(not ow_history(o["ow"]) for o in q["ops"]) and not ref_is_anc(dag, first[i][0], last[i][0]):
+                sink("after the whole sequence (no overwrite) branch %d went from %s to %s which does not contain it" % (
+                    i, tip_s(first[i][0]), tip_s(last[i][0])), None)
+            if q["brs"][i][1] and first[i][0] is not None and last[i][0] != first[i][0] and (
+                    first[i][0] not in ref_lh_stop_at_ghost(dag, last[i][0])):
+                sink("after the whole sequence append-only branch %d went from %s to %s whose left-hand history lacks it" % (
+                    i, tip_s(first[i][0]), tip_s(last[i][0])), None)
+            lh = ref_lh(dag, last[i][0])
+            if lh is not None and last[i][1] != len(lh):
+                sink("after the whole sequence branch %d records revno %d for %s (left-hand history %d)" % (
+                    i, last[i][1], tip_s(last[i][0]), len(lh)), None)
+
+
 def _bzr_worker(job):
-    """one DAG: graph observations for all pairs + all cases.  Module-level for pmap."""
-    dag, cases = job
+    """one DAG: graph observations for all pairs + all cases + op sequences.  Module-level for pmap."""
+    dag, cases, seqs = job
     r = BzrRunner(dag)
     try:
         nodes = [None] + dag["order"] + sorted({p for ps in dag["parents"].values() for p in ps if p >= GH0})[:2]
         pairs = [(a, b) for a in nodes for b in nodes]
         gobs = [r.graph_obs(a, b) for a, b in pairs]
         outs = [r.run_case(c) for c in cases]
-        return pairs, gobs, outs
+        souts = [r.run_seq(q) for q in seqs]
+        return pairs, gobs, outs, souts
     finally:
         r.close()
+
+
+def _remote_canon(out):
+    """through the smart server an append-only refusal can surface as RevisionNotPresent (the client-side
+    graph has no null: entry) - both are the append-only refusal"""
+    return out.replace("E:NotPresent", "E:AppendOnly")
 
 
 # ---------------------------------------------------------------------------
@@ -708,19 +938,24 @@ def run_relations(ctx):
 
 # ---------------------------------------------------------------------------
 
-def run(ctx, ndags=None, ngit=None, maxn=None):
+def run(ctx, ndags=None, ngit=None, maxn=None, nremote=None):
     run_relations(ctx)
     ndags = ndags or ctx.pick(20, 200)
     ngit = ngit if ngit is not None else ctx.pick(4, 24)
     maxn = maxn or ctx.pick(7, 10)
+    nremote = nremote if nremote is not None else ctx.pick(8, 60)
     jobs = []
     for i in range(ndags):
         n = ctx.rng.randint(3, maxn)
         dag = gen_dag(ctx.rng, n)
-        jobs.append((dag, gen_cases(ctx.rng, dag)))
+        cs = gen_cases(ctx.rng, dag)
+        if i < nremote:
+            cs += gen_remote_cases(ctx.rng, dag, ctx.pick(10, 14))
+        jobs.append((dag, cs, gen_seqs(ctx.rng, dag, ctx.pick(3, 5))))
     results = ctx.pmap(_bzr_worker, jobs, chunksize=1)
     cases, lines, outs = [], [], []
-    for (dag, cs), (pairs, gobs, res) in zip(jobs, results):
+    rcases, rlines, routs = [], [], []
+    for (dag, cs, seqs), (pairs, gobs, res, sres) in zip(jobs, results):
         genc = enc_graph(dag)
         ctx.count("dag_size:%d" % len(dag["order"]))
         ctx.count("dag_merges:%d" % sum(1 for ps in dag["parents"].values() if len(ps) > 1))
@@ -744,8 +979,17 @@ def run(ctx, ndags=None, ngit=None, maxn=None):
             ctx.case(case, nontrivial=_nontrivial(c))
             ctx.count("op:%s ow:%s ao:%s bound:%s" % (c["kind"], c["ow"], "T" if c["ao"] else "F",
                                                       "T" if c["master"] else "F"))
-            ctx.count("outcome:" + obs["err"])
+            via = "remote:" if c.get("remote") else ("local-flag:" if c.get("lo") else ("from-master:" if c.get("sm") else ""))
+            ctx.count("outcome:" + via + obs["err"])
             oracle(dag, c, obs, revno, lambda what, fam, case=case: ctx.violation(case, what, family=fam))
+            if c.get("remote"):
+                if c["stop"] != "N" and _lefthand_ghost_tip(dag, c):
+                    ctx.count("excluded-input:lefthand-ghost-tip:" + obs["err"])
+                    continue
+                rcases.append(case)
+                rlines.append(case_line(dag, revno, c))
+                routs.append(_remote_canon(out))
+                continue
             if c["stop"] != "N" and _lefthand_ghost_tip(dag, c):
                 # excluded input of the revno theorems: a branch tip whose own left-hand history runs
                 # into a ghost has no well-defined revno, and find_distance_to_null's answer then depends
@@ -755,7 +999,25 @@ def run(ctx, ndags=None, ngit=None, maxn=None):
             cases.append(case)
             lines.append(case_line(dag, revno, c))
             outs.append(out)
+        for q, (trace, steps) in zip(seqs, sres):
+            case = dict(f="seq", g=genc, **q)
+            moved = sum(1 for st in steps if st["after"] != st["before"])
+            ctx.case(case, nontrivial=moved >= 2)
+            ctx.count("seq ops:%d moved:%d" % (len(q["ops"]), moved))
+            for st in steps:
+                ctx.count("seq outcome:" + st["err"])
+            seq_oracle(dag, q, steps, lambda what, fam, case=case: ctx.violation(case, "sequence: " + what, family=fam))
+            cases.append(case)
+            lines.append(seq_line(dag, q))
+            outs.append(trace)
     ctx.diff(cases, lines, outs)
+    # through the smart server: compared modulo the error class of an append-only refusal
+    if rcases:
+        rm = [_remote_canon(m) for m in ctx.model(rlines)]
+        for c_, l_, i_, m_ in zip(rcases, rlines, routs, rm):
+            ctx.traces += 1
+            if i_ != m_:
+                ctx.mismatch(c_, i_, m_, line=l_, tie="T2 (bzr://)")
     # git
     gjobs = []
     for i in range(ngit):
@@ -776,11 +1038,11 @@ def run(ctx, ndags=None, ngit=None, maxn=None):
             lines.append(git_line(dag, c))
             outs.append(out)
     ctx.diff(cases, lines, outs)
-    ctx.extra["dags"] = dict(bzr=ndags, git=ngit, max_revisions=maxn)
+    ctx.extra["dags"] = dict(bzr=ndags, git=ngit, max_revisions=maxn, with_remote_cases=min(nremote, ndags))
 
 
 def widen(ctx):
-    run(ctx, ndags=150, ngit=10, maxn=10)
+    run(ctx, ndags=150, ngit=10, maxn=10, nremote=30)
 
 
 def _dag_from_enc(genc):
@@ -806,16 +1068,35 @@ def replay(ctx, case):
         impl = r.graph_obs(a, b)
         model = ctx.model(["rel %s %s %s" % (case["g"], case["a"], case["b"])])[0]
         return dict(case=case, impl=impl, model=model)
-    c = {k: case[k] for k in ("kind", "src", "tgt", "stop", "ow", "ao", "master")}
     viol = []
+    if f == "seq":
+        q = dict(brs=case["brs"], ops=case["ops"])
+        r = BzrRunner(dag)
+        try:
+            trace, steps = r.run_seq(q)
+        finally:
+            r.close()
+        model = ctx.model([seq_line(dag, q)])[0]
+        seq_oracle(dag, q, steps, lambda what, fam: viol.append(what))
+        for v in viol:
+            ctx.violation(case, "sequence: " + v)
+        return dict(case=case, impl=trace.split(";"), model=model.split(";"), oracle_failures=viol)
+    c = {k: case[k] for k in ("kind", "src", "tgt", "stop", "ow", "ao", "master")}
+    for k in ("lo", "sm", "remote"):
+        c[k] = bool(case.get(k))
     if f == "git":
         out, obs = GitRunner(dag).run_case(c)
         model = ctx.model([git_line(dag, c)])[0]
         oracle(dag, c, obs, lambda t: len(ref_lh(dag, t)), lambda what, fam: viol.append(what))
     else:
         r = BzrRunner(dag)
-        out, obs = r.run_case(c)
+        try:
+            out, obs = r.run_case(c)
+        finally:
+            r.close()
         model = ctx.model([case_line(dag, r.revno, c)])[0]
+        if c["remote"]:
+            out, model = _remote_canon(out), _remote_canon(model)
         oracle(dag, c, obs, r.revno, lambda what, fam: viol.append(what))
     for v in viol:
         ctx.violation(case, v)
